@@ -282,3 +282,109 @@ func (ex *Exec) PtrToNewObject(g *ssa.Global, content *Cell) *Cell {
 func (ex *Exec) CallClosure(c *CallCtx, cl *Closure, args []Val) Val {
 	return ex.callFn(c.Frame, c.St, cl.Fn, args, cl.Free, c.Instr)
 }
+
+// DeepTaint is the union of the taint labels of everything reachable from the values (through pointers and slices).
+func (ex *Exec) DeepTaint(st *State, vals []Val) uint64 {
+	seen := map[*Obj]bool{}
+	var t uint64
+	var walkCell func(c *Cell, depth int)
+	var walk func(v Val, depth int)
+	walkCell = func(c *Cell, depth int) {
+		if c == nil || depth > 8 {
+			return
+		}
+		if c.V != nil {
+			walk(c.V, depth+1)
+		}
+		for _, k := range c.Kids {
+			walkCell(k, depth+1)
+		}
+		for _, k := range c.symKids {
+			walkCell(k, depth+1)
+		}
+		if c.symIdx != nil {
+			t |= c.symIdx.Taint
+		}
+		if c.Arr != nil {
+			t |= c.Arr.Taint
+			if c.Arr.Content != nil {
+				t |= c.Arr.Content.Taint
+			}
+			for _, v := range c.Arr.Written {
+				walk(v, depth+1)
+			}
+		}
+	}
+	walk = func(v Val, depth int) {
+		if depth > 8 {
+			return
+		}
+		switch x := v.(type) {
+		case *sym.Term:
+			t |= x.Taint
+		case *Ptr:
+			if !seen[x.Obj] {
+				seen[x.Obj] = true
+				walkCell(st.cellOf(x.Obj), depth+1)
+			}
+			for _, s := range x.Path {
+				if s.Index != nil {
+					t |= s.Index.Taint
+				}
+			}
+		case *SliceVal:
+			t |= x.Len.Taint
+			if x.Base != nil {
+				walk(x.Base, depth)
+			}
+		case *Agg:
+			for _, e := range x.Elems {
+				walk(e, depth+1)
+			}
+		case *Choice:
+			t |= x.Cond.Taint
+			walk(x.A, depth+1)
+			walk(x.B, depth+1)
+		case Tuple:
+			for _, e := range x {
+				walk(e, depth+1)
+			}
+		case *Iface:
+			if x.Opaque != nil {
+				t |= x.Opaque.Taint
+			}
+			if x.V != nil {
+				walk(x.V, depth+1)
+			}
+		case *Closure:
+			for _, f := range x.Free {
+				walk(f, depth+1)
+			}
+		case *HashState:
+			if x.Key != nil {
+				t |= x.Key.Taint
+			}
+			if x.Data != nil {
+				t |= x.Data.Taint
+			}
+			for _, i := range x.Items {
+				t |= i.Taint
+			}
+		}
+	}
+	for _, v := range vals {
+		walk(v, 0)
+	}
+	return t
+}
+
+// IsAggregate reports whether p addresses a struct / array cell.
+func (ex *Exec) IsAggregate(st *State, p *Ptr) bool {
+	c := ex.LoadCell(st, p)
+	return c != nil && (c.Kids != nil)
+}
+
+// HavocObject replaces the content reachable through p by fresh symbols carrying the given taint.
+func (ex *Exec) HavocObject(st *State, p *Ptr, taint uint64, why string) {
+	ex.havocReachable(st, p, taint, why)
+}
